@@ -46,15 +46,24 @@ package resp
 //@   assert before Flush: sHdr == 1
 
 // ---- C03: the response-header parser (client side) is panic-free for every buffer content ----
+// C02 (first line not complete yet): while the line has no line feed the only error reported is the one NextLine
+// gave (need more data) - never a verdict on a prefix of the line, which would depend on where the read happened to end.
+//@ ghost var flBad bool
+//@ ghost var flErr int
 //@ func parseFirstLine(h, buf) n, err
-//@   props C03, C11
+//@   props C03, C11, C02
 //@   requires h != nil
-//@   modifies h._all, mem
+//@   modifies h._all, mem, flBad, flErr
+//@   ghostset-at-entry flBad = false
+//@   ghostset after NextLine: flBad = (result2 != nil)
+//@   ghostset after NextLine: flErr = result2
+//@   top-ensures @C02 flBad ==> err == flErr
 //@   ensures h.disableNormalizing == old(h.disableNormalizing)
 //@   allocates
 //@   ensures err == nil ==> 0 <= n && n <= len(buf)
 //@   loop 0:
 //@     invariant sameArray(bNext, buf) && off(bNext) >= off(buf) && off(bNext) + len(bNext) == off(buf) + len(buf)
+//@     invariant @C02 !flBad
 
 //@ ghost var rphChunked bool
 // rclOK/rclVal: outcome and value of the last Content-Length parse - the only non-sentinel length ever installed.
